@@ -85,4 +85,12 @@ example :
     t.wf = true ∧ valid t v = true ∧ ∃ bs h', encode t v {} = .ok (bs, h') := by
   refine ⟨by decide, by decide, _, _, rfl⟩
 
+/-- non-vacuity of `C01_prefix_free` / `C01_encode_injective` -/
+example :
+    let t : Ty := .seq .vector (.int .u16 .plain)
+    let v : Val := .list [.int 1, .int 300]
+    t.wf = true ∧ valid t v = true ∧ ∃ bs h', encode t v {} = .ok (bs, h') ∧ Resolves [] h'.pushed := by
+  refine ⟨by decide, by decide, _, _, rfl, ?_⟩
+  intro p hp; simp at hp
+
 end Nop
